@@ -1,5 +1,7 @@
 SPECIFICATION Spec
 CONSTANTS
+  GitColoured = FALSE
+  BlameFixed = TRUE
   NK = 4
   MaxLen = 7
   Palettes = {2, 3, 4}
